@@ -261,7 +261,13 @@ macro_rules! impl_flatten {
           }
           e => panic!("unknown event {}", e),
         }
-        emit(k, fmt_log(drain(&log)));
+        // field `qclosed`: is_closed() of the merged subscription, sampled after every event (C17)
+        let sfx = if case.has("qclosed") {
+          format!(" closed={}", sub.as_ref().map_or(true, |u| u.is_closed()) as u8)
+        } else {
+          String::new()
+        };
+        emit(k, fmt_log(drain(&log)) + &sfx);
       }
     }
   };
